@@ -3,6 +3,7 @@ package specgen
 import (
 	"fmt"
 	"math/rand"
+	"strings"
 )
 
 // Schema family (C06, C07, C08, C18): component schemas used as request and
@@ -297,6 +298,33 @@ func SchemaCases(seed int64, nRandom int, withMatrix bool) []Case {
 		})
 		id := "schema-fixed-allof-member-with-additional-properties"
 		out = append(out, Case{ID: id, Family: "schema", Spec: d.Root, Flags: Flags{Client: true}, Safe: false, Label: map[string]string{"set": id}})
+	}
+	{
+		// fixed: allOf members in every order, one of them with optional properties only
+		for _, order := range []string{"optref-inline", "inline-optref", "optref-reqref", "reqref-optref-inline"} {
+			d := NewDoc("allof-order")
+			d.Comp("schemas", "Opt", Obj(nil, M{"label": Prim("string", ""), "colour": Prim("string", "")}))
+			d.Comp("schemas", "Req", Obj([]string{"name"}, M{"name": Prim("string", ""), "rank": Prim("integer", "int32")}))
+			inl := Obj([]string{"id"}, M{"id": Prim("integer", "int64"), "note": Prim("string", "")})
+			var members L
+			for _, m := range strings.Split(order, "-") {
+				switch m {
+				case "optref":
+					members = append(members, Ref("schemas", "Opt"))
+				case "reqref":
+					members = append(members, Ref("schemas", "Req"))
+				default:
+					members = append(members, inl)
+				}
+			}
+			d.Comp("schemas", "Root", M{"allOf": members})
+			d.Op("/t", "post", M{
+				"requestBody": M{"required": true, "content": JSONContent(Ref("schemas", "Root"))},
+				"responses":   M{"200": Resp("ok", Ref("schemas", "Root")), "default": M{"description": "e"}},
+			})
+			id := "schema-fixed-allof-order-" + order
+			out = append(out, Case{ID: id, Family: "schema", Spec: d.Root, Flags: Flags{Client: true}, Safe: true, Label: map[string]string{"set": id}})
+		}
 	}
 	rng := rand.New(rand.NewSource(seed*977 + 3))
 	for i := 0; i < nRandom; i++ {
